@@ -161,5 +161,46 @@ def logqp_programs():
     return P
 
 
+BATCH_TABLE = [(m, st, n, 1, 1) for m, st, ns in SOLVER_TABLE for n in ns] + [
+    ('euler', 'ito', 'general', 2, 2), ('heun', 'stratonovich', 'general', 2, 2), ('midpoint', 'stratonovich', 'diagonal', 2, 2),
+    ('srk', 'ito', 'diagonal', 2, 2), ('milstein', 'ito', 'diagonal', 2, 2), ('log_ode', 'stratonovich', 'general', 2, 2),
+    ('reversible_heun', 'stratonovich', 'general', 2, 2), ('euler_heun', 'stratonovich', 'scalar', 2, 1)]
+
+
+def batch_programs():
+    """C20: the same solver steps traced with TWO batch rows (group 'Batch'); and the Brownian kernels on (2,2)/(2,2,2) shapes."""
+    from . import prog_solvers as ps
+    P = []
+    for method, sde_type, noise, d, m in BATCH_TABLE:
+        variants = [False] + ([True] if method == 'milstein' and noise != 'additive' and d == 1 else [])
+        for gf in variants:
+            fn, sample, funcs = ps.make_step(method, sde_type, noise, d, m, options={'grad_free': True} if gf else None, batch=2)
+            tol = 1e-12 if (method in ('milstein', 'log_ode') and not gf) else (4e-16 if method == 'srk' or gf else 0.0)
+            P.append(Prog(step_name(method, sde_type, noise, d, m, gf) + '_b2', 'Batch', fn, sample, funcs=funcs, tol=tol,
+                          props=('C20',)))
+
+    def s_split22(have_H):
+        def s(rng):
+            d = _times(rng, ['s', 'm', 'e'])
+            r = lambda: np.array([rng.gauss(0, 1) for _ in range(4)]).reshape(2, 2)
+            d.update(W=r(), X1=r())
+            if have_H:
+                d.update(H=r(), X2=r())
+            return d
+        return s
+    for have_H in (True, False):
+        for is_left in (True, False):
+            nm = f"split_{'H' if have_H else 'W'}{'L' if is_left else 'R'}_e22"
+            P.append(Prog(nm, 'Batch', (lambda B, h=have_H, l=is_left: pb.split(B, h, l, False, (2, 2))), s_split22(have_H),
+                          props=('C20',)))
+
+    def s_levy2(rng):
+        r = lambda n, sh: np.array([rng.gauss(0, 1) for _ in range(n)]).reshape(sh)
+        return dict(W=r(4, (2, 2)), H=r(4, (2, 2)), h=rng.uniform(0.01, 2.0), N=r(8, (2, 2, 2)))
+    P.append(Prog('levy_davie_b2', 'Batch', lambda B: pb.levy(B, LA.davie, 2), s_levy2, props=('C20',), tol=1e-15))
+    P.append(Prog('levy_foster_b2', 'Batch', lambda B: pb.levy(B, LA.foster, 2), s_levy2, props=('C20',), tol=1e-15))
+    return P
+
+
 def all_programs():
-    return brownian_programs() + solver_programs() + loop_programs() + logqp_programs()
+    return brownian_programs() + solver_programs() + loop_programs() + logqp_programs() + batch_programs()
